@@ -127,10 +127,12 @@ type Variant struct {
 
 // FuncInfo is one top-level function of the generated file.
 type FuncInfo struct {
-	Name string `json:"name"`
-	Sig  string `json:"sig"`
-	Text string `json:"-"`
-	Sha  string `json:"sha"`
+	Name   string `json:"name"`
+	Sig    string `json:"sig"`
+	NSig   string `json:"nsig"`   // types only, package qualifiers normalised (tfsdk. diag. types. context.)
+	Method bool   `json:"method"` // has a receiver (shared diagnostic types)
+	Text   string `json:"-"`
+	Sha    string `json:"sha"`
 }
 
 // GenResult is what was observed of one plugin run.
@@ -143,8 +145,10 @@ type GenResult struct {
 	RespError  string   `json:"resperror"` // response.error
 	Features   int      `json:"features"`
 	Files      []string `json:"files"`
+	FileBase   string   `json:"filebase"` // base name of the single output file
 	Content    string   `json:"-"`
 	Sha        string   `json:"sha"` // sha256 of the raw stdout
+	ContentSha string   `json:"contentsha"` // sha256 of the generated file
 	LicenseOK  bool     `json:"licenseok"`
 	Package    string   `json:"package"`
 	Funcs      []FuncInfo `json:"funcs"`
@@ -245,6 +249,9 @@ func (e *Env) Generate(v Variant) (*GenResult, error) {
 	}
 	if len(resp.GetFile()) >= 1 {
 		r.Content = resp.GetFile()[0].GetContent()
+		r.FileBase = filepath.Base(resp.GetFile()[0].GetName())
+		cs := sha256.Sum256([]byte(r.Content))
+		r.ContentSha = hex.EncodeToString(cs[:])
 	}
 	if license == nil {
 		license, _ = ioutil.ReadFile(filepath.Join(RepoDir, "license.txt"))
@@ -321,13 +328,16 @@ func analyse(r *GenResult) {
 			printer.Fprint(&sig, fset, x.Type)
 			printer.Fprint(&txt, fset, x)
 			name := x.Name.Name
+			method := false
 			if x.Recv != nil && len(x.Recv.List) == 1 {
 				var rb bytes.Buffer
 				printer.Fprint(&rb, fset, x.Recv.List[0].Type)
 				name = rb.String() + "." + name
+				method = true
 			}
 			s := sha256.Sum256(txt.Bytes())
-			r.Funcs = append(r.Funcs, FuncInfo{Name: name, Sig: sig.String(), Text: txt.String(), Sha: hex.EncodeToString(s[:8])})
+			r.Funcs = append(r.Funcs, FuncInfo{Name: name, Sig: sig.String(), NSig: normSig(fset, x.Type), Method: method,
+				Text: txt.String(), Sha: hex.EncodeToString(s[:8])})
 		case *ast.GenDecl:
 			if x.Tok == token.TYPE {
 				for _, s := range x.Specs {
@@ -336,6 +346,58 @@ func analyse(r *GenResult) {
 			}
 		}
 	}
+}
+
+var reQual = regexp.MustCompile(`([A-Za-z0-9_]+)\.([A-Z]\w*)`)
+
+func normType(fset *token.FileSet, e ast.Expr) string {
+	var b bytes.Buffer
+	printer.Fprint(&b, fset, e)
+	return reQual.ReplaceAllStringFunc(b.String(), func(m string) string {
+		sm := reQual.FindStringSubmatch(m)
+		q, id := sm[1], sm[2]
+		switch {
+		case q == "context":
+			return "context." + id
+		case strings.HasSuffix(q, "plugin_framework_tfsdk") || q == "tfsdk":
+			return "tfsdk." + id
+		case strings.HasSuffix(q, "plugin_framework_diag") || q == "diag":
+			return "diag." + id
+		case strings.HasSuffix(q, "plugin_framework_types") || q == "types":
+			return "types." + id
+		}
+		return id // the struct package qualifier
+	})
+}
+
+// normSig renders a function type with parameter names dropped and qualifiers normalised.
+func normSig(fset *token.FileSet, ft *ast.FuncType) string {
+	list := func(fl *ast.FieldList) []string {
+		var r []string
+		if fl == nil {
+			return r
+		}
+		for _, f := range fl.List {
+			n := len(f.Names)
+			if n == 0 {
+				n = 1
+			}
+			for i := 0; i < n; i++ {
+				r = append(r, normType(fset, f.Type))
+			}
+		}
+		return r
+	}
+	res := list(ft.Results)
+	s := "func(" + strings.Join(list(ft.Params), ", ") + ")"
+	switch len(res) {
+	case 0:
+	case 1:
+		s += " " + res[0]
+	default:
+		s += " (" + strings.Join(res, ", ") + ")"
+	}
+	return s
 }
 
 // castsFile declares the named types the descriptor refers to through casttype / customtype.
